@@ -154,3 +154,30 @@ Definition parent (p : str) : str :=
         | _ => rev (strip_trailing (rev dir))
         end
   end.
+
+(* Path::strip_prefix: component-wise; the result is the rest of the *raw* string from the next
+   real component on (Components::as_path trims separators and "." pieces at both ends) *)
+Fixpoint drop_comps (l : list str) (k : nat) (first abs : bool) : list str :=
+  match k with
+  | O => l
+  | S k' =>
+      match l with
+      | [] => []
+      | x :: t =>
+          match x with
+          | [] => if first && abs then drop_comps t k' false abs else drop_comps t k false abs
+          | _ => if str_eqb x [ch_dot] && negb (first && negb abs) then drop_comps t k false abs
+                 else drop_comps t k' false abs
+          end
+      end
+  end.
+Definition is_filler (x : str) : bool := match x with [] => true | _ => str_eqb x [ch_dot] end.
+Fixpoint trim_left (l : list str) : list str :=
+  match l with x :: t => if is_filler x then trim_left t else l | [] => [] end.
+Fixpoint join_slash (l : list str) : str :=
+  match l with [] => [] | [x] => x | x :: t => x ++ ch_slash :: join_slash t end.
+Definition strip_prefix (p base : str) : option str :=
+  if list_prefix (components base) (components p)
+  then let rest := drop_comps (split_slash p []) (length (components base)) true (is_absolute p) in
+       Some (join_slash (rev (trim_left (rev (trim_left rest)))))
+  else None.
